@@ -469,6 +469,9 @@ CASE_MODELS = [
     ('parameters A and a', '[Potential-Form]\nh(r, A, a) = A*r + a\n', 'h 1 100', lambda r: r + 100.0),
     ('table TF and formula tf', '[Table-Form:TF]\nx : 0 1 2 3 4 5 6 7 8 9 10 11 12 13\ny : 9 9 9 9 9 9 9 9 9 9 9 9 9 9\n\n[Potential-Form]\ntf(r) = 2*r\nk(r) = tf(r) + TF(r)\n', 'k', lambda r: 2 * r + 9.0),
     ('parameter R and the separation r', '[Potential-Form]\nm(r, R) = r + 10*R\n', 'm 3', lambda r: r + 30.0),
+    ('tables tab and Tab', '[Table-Form:tab]\nx : 0 5 10 15\ny : 1 1 1 1\n\n[Table-Form:Tab]\nx : 0 5 10 15\ny : 20 20 20 20\n\n[Potential-Form]\nk(r) = tab(r) + Tab(r)\n', 'k', lambda r: 21.0),
+    ('table AS.zero next to the built-in as.zero', '[Table-Form:AS.zero]\nx : 0 5 10 15\ny : 5 5 5 5\n\n[Potential-Form]\nk(r) = AS.zero(r) + as.zero(r) + 1\n', 'k', lambda r: 6.0),
+    ('table Helper and formula helper', '[Table-Form:Helper]\nx : 0 5 10 15\ny : 7 7 7 7\n\n[Potential-Form]\nhelper(r) = 2*r\nk(r) = helper(r) + Helper(r)\n', 'k', lambda r: 2 * r + 7.0),
 ]
 
 
